@@ -134,6 +134,18 @@ pub fn run(ctx: &Ctx) -> i32 {
         }
         st.count("scalars_x_all_subsets");
     });
+    // multi-code-point graphemes whose code points belong to different classes x all 63 subsets
+    {
+        let toks = crate::gen::cluster_tokens();
+        par_for(&ctx.run, toks.len() * 63, |i, st| {
+            let t = &toks[i % toks.len()];
+            let cls = 1 + (i / toks.len()) as u32;
+            context_case(ctx, st, t, cls);
+            if i % 7 == 0 {
+                context_case(ctx, st, &format!("{t}x{t}"), cls);
+            }
+        });
+    }
     // context independence: long test cases over many symbols x class subsets
     let n = if ctx.thorough { 60_000 } else { 4_000 };
     par_for(&ctx.run, n, |i, st| {
